@@ -6,8 +6,9 @@ finished container models (instead of assumed):
            whole rest.  From C01 `parse_export` (the pipeline accepts what `exportImage` emitted) and `reexport` (the parsed
            configuration exports again, hence validates).  The class selection by image type has no theorem in C01; it is the
            explicit hypothesis `hsel` (`Mbi.selectClass … e = some c`).
-  * HAB  - `SegmentHab.parse_binary` = `HabContainer.parse`, raw block := whole rest.  From C07 `hab_roundtrip_partial`
-           (inherits its hypothesis `hvis`: the application offset heuristic finds the application, known finding of C07).
+  * HAB  - `SegmentHab.parse_binary` = `HabContainer.parse`, raw block := whole rest.  From the C07 round trips, composed in
+           Properties/C14.lean: `hab_roundtrip_signed` (signed / encrypted: full strength) and `hab_roundtrip_unsigned`
+           (under the decidable `AppVisible`: the application-offset heuristic finds the application, known finding of C07).
 
 AHAB, SB2.1 and SB3.1: see the note at the end of the file (the foreign models have no model of `AHABImage.parse` /
 `__len__` after parse, `ImageHeaderV2.parse`, `SecureBinary31Header.parse`+`validate`).
@@ -89,7 +90,7 @@ def habApp (data : Bytes) : Option Nat :=
   | .error _ => none
 
 /-- the HAB parser of the bootable image accepts every container for which `HabContainer.parse` round-trips (`hrt` is the
-    conclusion of C07 `hab_roundtrip_partial`; the composition with that theorem's hypotheses is in Properties/XC14.lean) -/
+    conclusion of C07 `hab_roundtrip_partial`; the composition with that theorem's hypotheses is in Properties/C14.lean) -/
 theorem hab_accepts_of_roundtrip' (c : Hab.Cfg) (b : Hab.Built) (p : Hab.Parsed)
     (hrt : Hab.parse (Hab.exportImage c b) = .ok p) :
     habApp (Hab.exportImage c b) = some (Hab.exportImage c b).length := by
